@@ -2,7 +2,9 @@
 package recovery
 
 import (
+	stderrors "errors"
 	"fmt"
+	"io/fs"
 	"math"
 	"os"
 	"strings"
@@ -145,8 +147,11 @@ func (dr *DatabaseRecovery) loadWithRetry(primaryPath, personalPath string) (*da
 
 // shouldRetry determines if an error is worth retrying
 func (dr *DatabaseRecovery) shouldRetry(err error) bool {
-	// Don't retry for file not found or permission errors
-	if os.IsNotExist(err) || os.IsPermission(err) {
+	// Don't retry for file not found or permission errors. The loader wraps the
+	// cause in an application error, so look through the whole chain
+	// (os.IsNotExist does not unwrap).
+	if os.IsNotExist(err) || os.IsPermission(err) ||
+		stderrors.Is(err, fs.ErrNotExist) || stderrors.Is(err, fs.ErrPermission) {
 		return false
 	}
 
